@@ -223,3 +223,17 @@ def parallel_map(fn, items, jobs=16):
         for part in pool.map(fn, chunks):
             out.extend(part)
     return out
+
+
+def scalar_state(obj, exclude=()):
+    """Every scalar attribute of an object (hidden state included) as a canonical tuple: used inside canon()
+    functions so that states differing only in a flag the check did not think of are not merged."""
+    out = []
+    for k, v in sorted(getattr(obj, "__dict__", {}).items()):
+        if k in exclude:
+            continue
+        if isinstance(v, (int, str, bool, float, type(None), bytes)):
+            out.append((k, v))
+        elif isinstance(v, bytearray):
+            out.append((k, bytes(v)))
+    return tuple(out)
